@@ -17,7 +17,7 @@ def parse_out(text):
         t = line.split()
         k = t[0]
         if k == "op":
-            cur = {"op": t[1], "Lsup": [], "Lcol": {}, "Ucol": []}; cur.update(pre); pre = {}
+            cur = {"op": t[1], "Lsup": [], "Lcol": {}, "Ucol": [], "events": []}; cur.update(pre); pre = {}
         elif k == "end":
             ops.append(cur); cur = None
         elif k == "done":
@@ -57,6 +57,10 @@ def parse_out(text):
         elif k == "Ucol":
             cnt = int(t[2])
             cur["Ucol"].append(([int(x) for x in t[3:3 + cnt]], [fh(x) for x in t[3 + cnt:]]))
+        elif k == "e":
+            cur["events"].append((int(t[1]), int(t[2]), int(t[3]), int(t[4]), int(t[5])))
+        elif k == "events":
+            cur["events_total"] = int(t[2])
         elif k == "noLU":
             cur["noLU"] = True
     if cur is not None:
